@@ -196,7 +196,7 @@ def run(ck):
         ck.violation(v["key"], v.get("what", ""), v)
 
     # ---- model vs implementation (exact traces, internal state included) ----
-    hdr = "From LLGoV Require Import C06.Model C06.Simple C06.SimpleRun.\nLocal Open Scope N_scope.\n"
+    hdr = "From LLGoV Require Import C06.Model C06.Simple C06.SimpleRun C06.Grow C06.GrowRun.\nLocal Open Scope N_scope.\n"
     order = sorted(range(len(hists)), key=lambda i: -len(hists[i]["ops"]))   # spread the big ones over shards
     shard_n = max(1, (len(order) + 15) // 16)
     inter = []
@@ -207,7 +207,7 @@ def run(ck):
     # one pass: heap-level model (exact trace) and layer-1 model (API-level projection)
     import time
     t_coq = time.time()
-    bad = ck.coq_mismatches(hdr, terms, "check_both", "codes_eqb", "c06_both", shard=shard_n)
+    bad = ck.coq_mismatches(hdr, terms, "check_all", "codes_eqb", "c06_all", shard=shard_n)
     ck.log("model evaluation of %d histories: %.1fs (started %.1fs into the run)" % (len(hs), time.time() - t_coq, t_coq - ck.t0))
     fidelity_bad = 0
     if bad:
@@ -220,10 +220,12 @@ def run(ck):
         t_simple = [hist_term(r, observable(r)) for r in sub if not r["nil"]]
         sub_s = [r for r in sub if not r["nil"]]
         bad_simple = ck.coq_mismatches(hdr, t_simple, "simple_only", "trace_eqb", "c06_simple", shard=sh2) if t_simple else []
+        bad_grow = ck.coq_mismatches(hdr, t_simple, "grow_only", "trace_eqb", "c06_grow", shard=sh2) if t_simple else []
         fidelity_bad = len(bad_full)
         ck.log("model/implementation: %d histories differ in internal state or iteration order, %d in API-level results; "
-               "layer-1 model differs on %d" % (len(bad_full), len(bad_obs), len(bad_simple)))
-        for name, idxs, pool in (("C06.Model/run_history", bad_obs, sub), ("C06.Simple/srun", bad_simple, sub_s)):
+               "layer-1 model differs on %d, layer-2 model on %d" % (len(bad_full), len(bad_obs), len(bad_simple), len(bad_grow)))
+        for name, idxs, pool in (("C06.Model/run_history", bad_obs, sub), ("C06.Simple/srun", bad_simple, sub_s),
+                                 ("C06.Grow/grun", bad_grow, sub_s)):
             if idxs:
                 first = pool[idxs[0]]
                 ck.correspondence_broken(name, {"n_mismatch": len(idxs), "class": first["class"],
